@@ -579,6 +579,19 @@ func (vc *VC) specBinary(env *Env, x *SBinary) (Term, types.Type) {
 		switch x.Op {
 		case "+":
 			return App(SStr, "strcat", a, b), rt
+		case "<", "<=", ">", ">=":
+			// the same uninterpreted byte-wise order the code's string comparisons are encoded with
+			vc.q.DeclareFun("strlt", []Sort{SStr, SStr}, SBool)
+			switch x.Op {
+			case "<":
+				return App(SBool, "strlt", a, b), boolT
+			case ">":
+				return App(SBool, "strlt", b, a), boolT
+			case "<=":
+				return Not(App(SBool, "strlt", b, a)), boolT
+			default:
+				return Not(App(SBool, "strlt", a, b)), boolT
+			}
 		}
 		env.fail("unsupported string operator %s", x.Op)
 	}
@@ -918,6 +931,37 @@ func (vc *VC) specCall(env *Env, x *SCall) (Term, types.Type) {
 			env.fail("unknown type %s", tyText)
 		}
 		return Eq(ITyp(v), IntLit(int64(vc.eng.typeID(ty)))), boolT
+	case "captured":
+		// captured(T): the current value of the one variable of type T the closure under verification captured
+		// (named by type, not by identifier, so renaming the variable does not break the contract)
+		need(1)
+		var tyText string
+		switch a := x.Args[0].(type) {
+		case *STypeExpr:
+			tyText = a.Text
+		default:
+			tyText = strings.Trim(specString(a), "()")
+		}
+		ty := vc.eng.parseType(env.pkg, tyText)
+		if ty == nil {
+			env.fail("unknown type %s", tyText)
+		}
+		if env.fr == nil {
+			env.fail("captured() outside a function body")
+		}
+		var hit *ssa.FreeVar
+		for _, fv := range env.fr.fn.FreeVars {
+			if pt, ok := fv.Type().Underlying().(*types.Pointer); ok && types.Identical(pt.Elem(), ty) {
+				if hit != nil {
+					env.fail("captured(%s): more than one captured variable of that type", tyText)
+				}
+				hit = fv
+			}
+		}
+		if hit == nil {
+			env.fail("captured(%s): this function captures no variable of that type", tyText)
+		}
+		return vc.load(env.st, vc.val(env.fr, hit), ty), ty
 	case "dyntype":
 		need(1)
 		v, _ := vc.specExpr(env, x.Args[0])
